@@ -180,6 +180,30 @@ func (c *Ctx) loadKnown(path string) error {
 }
 
 // finish triages, prints, writes the evidence and returns the exit status.
+// hasAlarms: some obligation failed (or is undecided) and is not a listed known finding, or the run was fatal.
+func (c *Ctx) hasAlarms() bool {
+	if len(c.fatal) > 0 {
+		return true
+	}
+	for _, o := range c.Obs {
+		if o.Status != "fail" && o.Status != "undecided" {
+			continue
+		}
+		known := false
+		if o.Status == "fail" {
+			for _, k := range c.Known {
+				if k.Rule == o.Rule && k.Construct == o.Construct {
+					known = true
+				}
+			}
+		}
+		if !known {
+			return true
+		}
+	}
+	return false
+}
+
 func (c *Ctx) finish() int {
 	sort.SliceStable(c.Obs, func(i, j int) bool {
 		if c.Obs[i].Rule != c.Obs[j].Rule {
